@@ -1,21 +1,550 @@
-//! Real-bridge tier (DESIGN §3.8): real rustc sessions with the shipped
-//! proc-macro. Placeholder until the tier is built.
+//! Real-bridge tier (DESIGN §3.8): real rustc sessions running the *shipped*
+//! proc-macro (guard off), i.e. the real `invoke` and the four wrappers.
+//!
+//! A session is a generated `lib.rs` with N invocations in a PRNG-chosen
+//! order, exactly one of them carrying `debug`, compiled by a real rustc under
+//! a PRNG-chosen environment, cwd and hash seed (LD_PRELOAD `getrandom` seam).
+//! The macro prints that one expansion on rustc's stdout. Two uses:
+//!  (a) across real sessions the output for one program must be identical —
+//!      a difference is a genuine C20 violation (covers `invoke` itself);
+//!  (b) against sessim's in-process reference for the same program, which
+//!      validates the `verif::expand` mirror and proc-macro2's fallback. A
+//!      disagreement here is never a VIOLATION: if the text of `invoke` changed
+//!      since the mirror was written the mirror is stale (reported in the
+//!      evidence), otherwise the stub is unfaithful (harness error).
 
-use crate::driver::{References, Workload};
-use crate::exec::HarnessError;
+use crate::driver::{RefResult, References, Workload, ENV_NAMES, ENV_VALUES};
+use crate::exec::{HarnessError, Scratch};
+use crate::plan::Program;
 use serde_json::{json, Value};
-use std::path::Path;
+use simcore::Rng;
+use std::collections::BTreeMap;
+use std::path::{Path, PathBuf};
+use std::process::{Command, Stdio};
+use std::sync::atomic::{AtomicU64, Ordering};
+use std::sync::Mutex;
 
 pub struct BridgeReport {
     pub summary: Value,
     pub violations: Vec<Value>,
 }
 
-#[allow(clippy::too_many_arguments)]
-pub fn run(_verif: &Path, _repo: &Path, _exe: &Path, _seed: u64, _sessions: usize, _w: &Workload, _refs: &References, _workers: usize) -> Result<BridgeReport, HarnessError> {
-    Ok(BridgeReport { summary: json!({"sessions": 0, "note": "tier not built yet"}), violations: vec![] })
+/// FNV hash of the token text of `invoke`, `set_fallbacks` and the four
+/// wrappers as they were when `verif::expand` was written (pinned tree).
+const MIRRORED_TEXT_HASH: &str = "f3fca80708bcddfd";
+
+fn shell_split(s: &str) -> Vec<String> {
+    let mut out = vec![];
+    let mut cur = String::new();
+    let mut in_s = false;
+    let mut in_d = false;
+    let mut any = false;
+    let mut chars = s.chars().peekable();
+    while let Some(c) = chars.next() {
+        match c {
+            '\'' if !in_d => {
+                in_s = !in_s;
+                any = true;
+            }
+            '"' if !in_s => {
+                in_d = !in_d;
+                any = true;
+            }
+            '\\' if !in_s => {
+                if let Some(n) = chars.next() {
+                    cur.push(n);
+                    any = true;
+                }
+            }
+            c if c.is_whitespace() && !in_s && !in_d => {
+                if any || !cur.is_empty() {
+                    out.push(std::mem::take(&mut cur));
+                    any = false;
+                }
+            }
+            c => {
+                cur.push(c);
+                any = true;
+            }
+        }
+    }
+    if any || !cur.is_empty() {
+        out.push(cur);
+    }
+    out
 }
 
-pub fn replay(_doc: &Value) -> i32 {
-    2
+pub struct RustcCmd {
+    pub program: String,
+    /// arguments with the source path and --out-dir value replaced by
+    /// placeholders "@SRC@" / "@OUT@"
+    pub args: Vec<String>,
+}
+
+fn mirrored_text_hash(repo: &Path) -> Option<String> {
+    let text = std::fs::read_to_string(repo.join("entrait_macros/src/lib.rs")).ok()?;
+    let file = syn::parse_file(&text).ok()?;
+    let mut h = simcore::fnv1a64(b"mirror");
+    for item in &file.items {
+        if let syn::Item::Fn(f) = item {
+            let name = f.sig.ident.to_string();
+            if ["invoke", "set_fallbacks", "entrait", "entrait_export", "entrait_unimock", "entrait_export_unimock"].contains(&name.as_str()) {
+                let mut f = f.clone();
+                f.attrs.retain(|a| !a.path().is_ident("cfg") && !a.path().is_ident("doc"));
+                use quote::ToTokens;
+                h = simcore::fnv_extend(h, f.to_token_stream().to_string().as_bytes());
+            }
+        }
+    }
+    Some(simcore::hex64(h))
+}
+
+fn prepare_crate(verif: &Path, repo: &Path) -> Result<(PathBuf, RustcCmd), HarnessError> {
+    let dir = verif.join("scratch/bridge/crate");
+    std::fs::create_dir_all(dir.join("src")).map_err(|e| HarnessError(format!("bridge crate: {e}")))?;
+    let manifest = format!(
+        "[package]\nname = \"bridge_scratch\"\nversion = \"0.0.0\"\nedition = \"2021\"\n\n[workspace]\n\n[dependencies]\nentrait = {{ path = \"{}\" }}\nentrait_macros = {{ path = \"{}/entrait_macros\" }}\n",
+        repo.display(),
+        repo.display()
+    );
+    std::fs::write(dir.join("Cargo.toml"), manifest).map_err(|e| HarnessError(e.to_string()))?;
+    // unique content forces cargo to re-run rustc so that -v prints the command
+    let stamp = simcore::real_now_s();
+    std::fs::write(dir.join("src/lib.rs"), format!("// {stamp}\npub fn bridge_probe() {{}}\n")).map_err(|e| HarnessError(e.to_string()))?;
+    if !dir.join("Cargo.lock").exists() {
+        let _ = std::fs::copy(repo.join("Cargo.lock"), dir.join("Cargo.lock"));
+    }
+    let out = Command::new("cargo")
+        .args(["check", "-v", "--offline", "--lib"])
+        .current_dir(&dir)
+        .env("CARGO_TARGET_DIR", verif.join("target/bridge"))
+        .env("CARGO_NET_OFFLINE", "true")
+        .env_remove("RUSTFLAGS")
+        .env_remove("CARGO_ENCODED_RUSTFLAGS")
+        .env_remove("RUSTC_WRAPPER")
+        .stdin(Stdio::null())
+        .output()
+        .map_err(|e| HarnessError(format!("cargo check: {e}")))?;
+    let stderr = String::from_utf8_lossy(&out.stderr).to_string();
+    if !out.status.success() {
+        return Err(HarnessError(format!(
+            "the shipped macro does not build (cargo check of the bridge crate failed): {}",
+            stderr.lines().filter(|l| l.starts_with("error")).take(3).collect::<Vec<_>>().join(" | ")
+        )));
+    }
+    let line = stderr
+        .lines()
+        .find(|l| l.contains("Running") && l.contains("--crate-name bridge_scratch"))
+        .ok_or_else(|| HarnessError("could not find the rustc command line in `cargo check -v` output".into()))?;
+    let start = line.find('`').ok_or_else(|| HarnessError("malformed Running line".into()))?;
+    let end = line.rfind('`').unwrap_or(line.len());
+    let words = shell_split(&line[start + 1..end]);
+    // skip leading VAR=value words
+    let mut it = words.into_iter().peekable();
+    while it.peek().map(|w| w.contains('=') && !w.contains('/') && !w.starts_with('-')).unwrap_or(false) {
+        it.next();
+    }
+    let program = it.next().ok_or_else(|| HarnessError("empty rustc command".into()))?;
+    let mut args = vec![];
+    let mut skip_next = false;
+    let mut raw: Vec<String> = it.collect();
+    let mut i = 0;
+    while i < raw.len() {
+        let a = std::mem::take(&mut raw[i]);
+        i += 1;
+        if skip_next {
+            skip_next = false;
+            continue;
+        }
+        if a.starts_with("--error-format") || a.starts_with("--json") || a.starts_with("--diagnostic-width") {
+            continue;
+        }
+        if a == "-C" && raw.get(i).map(|n| n.starts_with("incremental")).unwrap_or(false) {
+            skip_next = true;
+            continue;
+        }
+        if a.starts_with("-Cincremental") {
+            continue;
+        }
+        if a == "--out-dir" {
+            args.push(a);
+            args.push("@OUT@".into());
+            skip_next = true;
+            continue;
+        }
+        if a.ends_with("src/lib.rs") {
+            args.push("@SRC@".into());
+            continue;
+        }
+        args.push(a);
+    }
+    args.push("--cap-lints".into());
+    args.push("allow".into());
+    if !args.iter().any(|a| a == "@SRC@") {
+        return Err(HarnessError("source path not found in rustc command".into()));
+    }
+    Ok((dir, RustcCmd { program, args }))
+}
+
+#[derive(Clone)]
+pub struct Session {
+    pub source: String,
+    pub env: Vec<(String, String)>,
+    pub hash_seed: u64,
+    pub cwd_sub: String,
+    /// the program whose expansion is printed
+    pub subject: Program,
+    pub position: usize,
+    pub n: usize,
+}
+
+fn attr_path(variant: &str) -> String {
+    format!("::entrait_macros::{variant}")
+}
+
+fn add_debug(p: &Program) -> Program {
+    let kind_impl = matches!(syn::parse_str::<syn::Item>(&p.item), Ok(syn::Item::Impl(_)));
+    let attr = if p.attr.trim().is_empty() {
+        "debug".to_string()
+    } else if kind_impl {
+        format!("{} debug", p.attr.trim())
+    } else {
+        format!("{}, debug", p.attr.trim().trim_end_matches(','))
+    };
+    Program {
+        variant: p.variant.clone(),
+        attr,
+        item: p.item.clone(),
+        origin: p.origin.clone(),
+        names: p.names.clone(),
+    }
+}
+
+fn render(p: &Program, idx: usize) -> String {
+    format!("mod s{idx} {{\n    #[{}({})]\n    {}\n}}\n", attr_path(&p.variant), p.attr, p.item)
+}
+
+const BRIDGE_ENV_SKIP: [&str; 6] = ["RUST_LOG", "RUSTC_WRAPPER", "TMPDIR", "RUST_BACKTRACE", "RUSTC_BOOTSTRAP", "RUSTFLAGS"];
+
+fn gen_session(rng: &mut Rng, pool: &[Program]) -> Session {
+    let n = rng.range(1, 8) as usize;
+    let position = rng.below(n as u64) as usize;
+    let mut source = String::from("#![allow(warnings)]\n");
+    let mut subject = None;
+    for i in 0..n {
+        let p = rng.pick(pool);
+        if i == position {
+            let d = add_debug(p);
+            source.push_str(&render(&d, i));
+            subject = Some(d);
+        } else {
+            source.push_str(&render(p, i));
+        }
+    }
+    let mut env = vec![];
+    let n_env = rng.below(5);
+    for _ in 0..n_env {
+        let name = *rng.pick(&ENV_NAMES);
+        if BRIDGE_ENV_SKIP.contains(&name) {
+            continue;
+        }
+        env.push((name.to_string(), rng.pick(&ENV_VALUES).to_string()));
+    }
+    Session {
+        source,
+        env,
+        hash_seed: rng.next_u64() >> 1,
+        cwd_sub: (*rng.pick(&["", "a", "b"])).to_string(),
+        subject: subject.unwrap(),
+        position,
+        n,
+    }
+}
+
+/// Token-for-token canonical form: every leaf token separated by one space,
+/// punctuation one character at a time (so that spacing / jointness, which
+/// differs between rustc's printer and proc-macro2's, plays no role).
+fn canon(ts: proc_macro2::TokenStream, out: &mut String) {
+    for tt in ts {
+        match tt {
+            proc_macro2::TokenTree::Group(g) => {
+                let (o, c) = match g.delimiter() {
+                    proc_macro2::Delimiter::Parenthesis => ("(", ")"),
+                    proc_macro2::Delimiter::Brace => ("{", "}"),
+                    proc_macro2::Delimiter::Bracket => ("[", "]"),
+                    proc_macro2::Delimiter::None => ("", ""),
+                };
+                out.push_str(o);
+                out.push(' ');
+                canon(g.stream(), out);
+                out.push_str(c);
+                out.push(' ');
+            }
+            proc_macro2::TokenTree::Ident(i) => {
+                out.push_str(&i.to_string());
+                out.push(' ');
+            }
+            proc_macro2::TokenTree::Punct(p) => {
+                out.push(p.as_char());
+                out.push(' ');
+            }
+            proc_macro2::TokenTree::Literal(l) => {
+                out.push_str(&l.to_string());
+                out.push(' ');
+            }
+        }
+    }
+}
+
+fn normalise(text: &str) -> Option<String> {
+    text.parse::<proc_macro2::TokenStream>().ok().map(|t| {
+        let mut s = String::new();
+        canon(t, &mut s);
+        s
+    })
+}
+
+pub struct SessionOutput {
+    pub raw_stdout: String,
+    pub normalised: Option<String>,
+    pub status_ok: bool,
+}
+
+fn run_session(cmd: &RustcCmd, preload: &Path, dir: &Path, s: &Session) -> Result<SessionOutput, HarnessError> {
+    let _ = std::fs::remove_dir_all(dir);
+    std::fs::create_dir_all(dir.join("out")).map_err(|e| HarnessError(e.to_string()))?;
+    let cwd = if s.cwd_sub.is_empty() { dir.to_path_buf() } else { dir.join(&s.cwd_sub) };
+    std::fs::create_dir_all(&cwd).map_err(|e| HarnessError(e.to_string()))?;
+    let src = dir.join("lib.rs");
+    std::fs::write(&src, &s.source).map_err(|e| HarnessError(e.to_string()))?;
+    let args: Vec<String> = cmd
+        .args
+        .iter()
+        .map(|a| match a.as_str() {
+            "@SRC@" => src.display().to_string(),
+            "@OUT@" => dir.join("out").display().to_string(),
+            _ => a.clone(),
+        })
+        .collect();
+    let mut c = Command::new(&cmd.program);
+    c.args(&args).current_dir(&cwd).env_clear();
+    for (k, v) in &s.env {
+        c.env(k, v);
+    }
+    c.env("TMPDIR", dir)
+        .env("LD_PRELOAD", preload)
+        .env("SESSIM_HASH_SEED", s.hash_seed.to_string())
+        .stdin(Stdio::null())
+        .stdout(Stdio::piped())
+        .stderr(Stdio::null());
+    let out = c.output().map_err(|e| HarnessError(format!("rustc: {e}")))?;
+    let raw = String::from_utf8_lossy(&out.stdout).to_string();
+    Ok(SessionOutput {
+        normalised: if raw.trim().is_empty() { None } else { normalise(&raw) },
+        raw_stdout: raw,
+        status_ok: out.status.success(),
+    })
+}
+
+fn session_json(s: &Session, out: &SessionOutput) -> Value {
+    json!({
+        "source": s.source, "env": s.env.iter().map(|(k, v)| json!([k, v])).collect::<Vec<_>>(),
+        "hash_seed": s.hash_seed.to_string(), "cwd_sub": s.cwd_sub, "position": s.position, "n": s.n,
+        "subject": s.subject.to_json(), "printed": out.raw_stdout,
+    })
+}
+
+#[allow(clippy::too_many_arguments)]
+pub fn run(verif: &Path, repo: &Path, exe: &Path, seed: u64, sessions: usize, w: &Workload, refs: &References, workers: usize) -> Result<BridgeReport, HarnessError> {
+    let t0 = simcore::real_now_s();
+    let preload = exe.parent().unwrap().join("libsessim_preload.so");
+    if !preload.exists() {
+        return Err(HarnessError(format!("{} not built", preload.display())));
+    }
+    let (_crate_dir, cmd) = prepare_crate(verif, repo)?;
+    // only programs rustc can parse as items take part (a syntax error would
+    // abort the whole session before any expansion)
+    let pool: Vec<Program> = w
+        .programs
+        .iter()
+        .filter(|p| syn::parse_str::<syn::Item>(&p.item).is_ok() && !p.attr.contains("debug"))
+        .cloned()
+        .collect();
+    if pool.len() < 10 {
+        return Err(HarnessError("too few parseable programs for the real-bridge tier".into()));
+    }
+    let next = AtomicU64::new(0);
+    let results: Mutex<Vec<(Session, SessionOutput)>> = Mutex::new(vec![]);
+    let errors: Mutex<Vec<String>> = Mutex::new(vec![]);
+    let base = verif.join("scratch/bridge");
+    std::thread::scope(|sc| {
+        for slot in 0..workers {
+            let (next, results, errors, cmd, preload, pool, base) = (&next, &results, &errors, &cmd, &preload, &pool, &base);
+            sc.spawn(move || loop {
+                let i = next.fetch_add(1, Ordering::SeqCst);
+                if i as usize >= sessions {
+                    break;
+                }
+                let mut rng = Rng::for_run(seed ^ 0xb41d_6e00, i);
+                let s = gen_session(&mut rng, pool);
+                match run_session(cmd, preload, &base.join(format!("s{slot}")), &s) {
+                    Ok(o) => results.lock().unwrap().push((s, o)),
+                    Err(e) => errors.lock().unwrap().push(e.0),
+                }
+            });
+        }
+    });
+    let errors = errors.into_inner().unwrap();
+    if let Some(e) = errors.first() {
+        return Err(HarnessError(format!("{e} ({} failed sessions)", errors.len())));
+    }
+    let results = results.into_inner().unwrap();
+    let mut printed = 0usize;
+    let mut silent = 0usize;
+    let mut by_prog: BTreeMap<u64, Vec<usize>> = BTreeMap::new();
+    for (i, (s, o)) in results.iter().enumerate() {
+        if o.normalised.is_some() {
+            printed += 1;
+            by_prog.entry(s.subject.key()).or_default().push(i);
+        } else {
+            silent += 1;
+        }
+    }
+    if printed * 2 < results.len() {
+        return Err(HarnessError(format!("only {printed} of {} real sessions printed an expansion", results.len())));
+    }
+    // (a) across real sessions
+    let mut violations = vec![];
+    let mut compared_pairs = 0usize;
+    for idxs in by_prog.values() {
+        let first = &results[idxs[0]];
+        for j in &idxs[1..] {
+            compared_pairs += 1;
+            let other = &results[*j];
+            if other.1.normalised != first.1.normalised && violations.is_empty() {
+                let path = verif.join("replays").join(format!("C20-{seed}-bridge.json"));
+                let doc = json!({
+                    "property": "C20", "kind": "real-bridge", "seed": seed as i64,
+                    "class": "two real compiler sessions printed different expansions for one (attr, item)",
+                    "rustc": {"program": cmd.program, "args": cmd.args},
+                    "preload": preload.display().to_string(),
+                    "session_a": session_json(&first.0, &first.1),
+                    "session_b": session_json(&other.0, &other.1),
+                    "replay": format!("./check C20 --replay {}", path.display()),
+                });
+                let _ = std::fs::create_dir_all(path.parent().unwrap());
+                let _ = std::fs::write(&path, serde_json::to_string_pretty(&doc).unwrap() + "\n");
+                violations.push(json!({
+                    "summary": format!("program {:?} expanded differently in two real rustc sessions (position {} of {} vs {} of {})",
+                        first.0.subject.attr, first.0.position, first.0.n, other.0.position, other.0.n),
+                    "replay": path.display().to_string(),
+                }));
+            }
+        }
+    }
+    // (b) against the in-process reference (mirror validation)
+    let scratch = Scratch::new(&verif.join("scratch").join("sessim"), 950);
+    let mut mirror_checked = 0usize;
+    let mut mirror_disagree = 0usize;
+    let mut mirror_example = Value::Null;
+    for (key, idxs) in by_prog.iter().take(400) {
+        let (s, o) = &results[idxs[0]];
+        let _ = key;
+        let r = refs.compute(exe, &scratch, &s.subject, true)?;
+        let text = match r {
+            RefResult::Ok(o) => o.text,
+            RefResult::Disagree(_, a, _, _) => a.text,
+        };
+        let Some(text) = text else { continue };
+        let expect = normalise(&text);
+        mirror_checked += 1;
+        if expect != o.normalised {
+            mirror_disagree += 1;
+            if mirror_example.is_null() {
+                mirror_example = json!({"program": s.subject.to_json(), "real": o.normalised, "in_process": expect});
+            }
+        }
+    }
+    let now_hash = mirrored_text_hash(repo).unwrap_or_default();
+    let mirror_text_changed = now_hash != MIRRORED_TEXT_HASH;
+    let mirror_state = if mirror_disagree == 0 {
+        "faithful"
+    } else if mirror_text_changed {
+        "STALE: the text of invoke/wrappers changed since verif::expand was written; in-process verdict covers the shared expansion code only, (a) covers invoke"
+    } else {
+        "UNFAITHFUL"
+    };
+    if mirror_disagree > 0 && !mirror_text_changed && violations.is_empty() {
+        return Err(HarnessError(format!(
+            "the in-process stub disagrees with the real bridge for {mirror_disagree} programs although invoke's text is unchanged: {}",
+            mirror_example
+        )));
+    }
+    let wall = simcore::real_now_s() - t0;
+    Ok(BridgeReport {
+        summary: json!({
+            "sessions": results.len(),
+            "sessions_that_printed_an_expansion": printed,
+            "sessions_silent (macro rejected the debug-carrying invocation or rustc stopped earlier)": silent,
+            "sessions_where_rustc_succeeded": results.iter().filter(|r| r.1.status_ok).count(),
+            "distinct_programs_observed": by_prog.len(),
+            "programs_observed_in_two_or_more_sessions": by_prog.values().filter(|v| v.len() > 1).count(),
+            "cross_session_comparisons": compared_pairs,
+            "cross_session_differences": violations.len(),
+            "mirror_validation": {"programs_compared": mirror_checked, "disagreements": mirror_disagree, "state": mirror_state,
+                                  "invoke_text_hash_now": now_hash, "invoke_text_hash_mirrored": MIRRORED_TEXT_HASH, "example": mirror_example},
+            "seams": "LD_PRELOAD getrandom (hash keys), environment, cwd, invocation order and count; no interleaving, thread placement or panic injection (rustc expands on one thread; the shipped macro has no fault points)",
+            "wall_s": (wall * 100.0).round() / 100.0,
+            "sessions_per_hour": (results.len() as f64 / wall.max(1e-9) * 3600.0).round(),
+        }),
+        violations,
+    })
+}
+
+pub fn mirror_hash_now(repo: &Path) -> String {
+    mirrored_text_hash(repo).unwrap_or_default()
+}
+
+pub fn replay(doc: &Value, file: &str) -> i32 {
+    // rebuild the shipped macro from the current working tree first
+    let cmd = match prepare_crate(Path::new("/verif"), Path::new("/repo")) {
+        Ok((_, cmd)) => cmd,
+        Err(e) => {
+            eprintln!("HARNESS-ERROR: {}", e.0);
+            return 2;
+        }
+    };
+    let preload = PathBuf::from(doc["preload"].as_str().unwrap_or(""));
+    let load = |v: &Value| -> Session {
+        Session {
+            source: v["source"].as_str().unwrap_or("").to_string(),
+            env: v["env"].as_array().map(|a| a.iter().map(|kv| (kv[0].as_str().unwrap_or("").to_string(), kv[1].as_str().unwrap_or("").to_string())).collect()).unwrap_or_default(),
+            hash_seed: v["hash_seed"].as_str().and_then(|s| s.parse().ok()).unwrap_or(0),
+            cwd_sub: v["cwd_sub"].as_str().unwrap_or("").to_string(),
+            subject: Program::from_json(&v["subject"]),
+            position: v["position"].as_u64().unwrap_or(0) as usize,
+            n: v["n"].as_u64().unwrap_or(0) as usize,
+        }
+    };
+    let (a, b) = (load(&doc["session_a"]), load(&doc["session_b"]));
+    let base = PathBuf::from("/verif/scratch/bridge/replay");
+    let oa = run_session(&cmd, &preload, &base.join("a"), &a);
+    let ob = run_session(&cmd, &preload, &base.join("b"), &b);
+    match (oa, ob) {
+        (Ok(oa), Ok(ob)) => {
+            println!("session A printed: {}", oa.raw_stdout.trim());
+            println!("session B printed: {}", ob.raw_stdout.trim());
+            if oa.normalised != ob.normalised {
+                println!("VIOLATION property=C20 replay={file}");
+                1
+            } else {
+                println!("replay: the two real sessions agree (not reproduced on this tree)");
+                0
+            }
+        }
+        _ => {
+            eprintln!("HARNESS-ERROR: could not run the real sessions");
+            2
+        }
+    }
 }
